@@ -46,6 +46,14 @@ def expand(exe, requests, out_path=None, timeout=1200, jobs=8):
     return records
 
 
+def expand_fresh(exe, requests, jobs=16):
+    """every request alone in a freshly spawned process (no prior history at all); order is preserved"""
+    from concurrent.futures import ThreadPoolExecutor
+    with ThreadPoolExecutor(max_workers=jobs) as ex:
+        parts = list(ex.map(lambda r: expand1(exe, [r], None, 120), requests))
+    return [r for part in parts for r in part]
+
+
 def expand1(exe, requests, out_path=None, timeout=1200):
     """requests: list of dict(id, text[, reps]). Returns the list of records (one per expansion, in order).
 
